@@ -1899,11 +1899,25 @@ fn parse_num_radix<const RADIX: u8>(s: &str) -> Result<f64, ParseNumRadixError> 
         number = number * u128::from(RADIX) + u128::from(digit);
     }
 
-    let mut number = number as f64;
+    // The remaining digits only scale the result by a power of two, but a
+    // non-zero digit among them can still decide how the exact part is
+    // rounded. When there are remaining digits, `number` has more than 64
+    // significant bits, so its lowest bit can serve as a sticky bit.
+    let mut num_extra_digits = 0usize;
+    let mut sticky = false;
     for chr in chars {
-        if chr.to_digit(RADIX.into()).is_none() {
-            return Err(ParseNumRadixError::InvalidDigit(chr));
-        }
+        let digit = chr
+            .to_digit(RADIX.into())
+            .ok_or(ParseNumRadixError::InvalidDigit(chr))?;
+        sticky |= digit != 0;
+        num_extra_digits += 1;
+    }
+    if sticky {
+        number |= 1;
+    }
+
+    let mut number = number as f64;
+    for _ in 0..num_extra_digits {
         number *= f64::from(RADIX);
     }
 
